@@ -7,6 +7,7 @@ from .. import storegen, storelib
 
 T0 = storegen.T0
 SEC = 1_000_000
+FUTURE = 5_680_000_000_000_000  # an instant in 2149, in µs
 
 DATAS = [
     json.dumps({"app": "Firefox", "title": "ActivityWatch - Mozilla Firefox (Private)", "url": "http://www.example.com/a?b=c#d"}),
@@ -81,6 +82,8 @@ class C12(Prop):
                     d = rng.choice([0, SEC, 2 * SEC, 1500])
                     l.append([None, T0 + t, d, rng.choice(DATAS)])
                     t += (d + 999) // 1000 * 1000 + rng.choice([0, 0, SEC, 3 * SEC])
+                if rng.random() < 0.3:
+                    rng.shuffle(l)  # written out of time order
                 evs[b] = l
             k = rng.randint(1, 4)
             stmts = ['events = query_bucket("b0");', 'other = query_bucket(find_bucket("b1"));']
@@ -101,12 +104,33 @@ class C12(Prop):
                 stmts.append("RETURN = events;")
             w0 = T0 + rng.choice([-5, 0, 1, 3]) * SEC + rng.choice([0, 1, 999, 500_000])
             w1 = w0 + rng.choice([0, 1, 2, 6, 20]) * SEC + rng.choice([0, 1, 1000])
+            if rng.random() < 0.12:
+                # a window that reaches from the past far into the future, over events dated after today (legal: the
+                # library only warns about timestamps after 2100)
+                for b in evs:
+                    evs[b] = evs[b] + [[None, FUTURE + rng.randrange(0, 5) * SEC, rng.choice([0, SEC]), rng.choice(DATAS)]
+                                       for _ in range(rng.randint(1, 2))]
+                w1 = FUTURE + rng.choice([0, 2, 10]) * SEC
             for be in storelib.BACKENDS:
                 out.append(("program", {"backend": be, "events": evs, "prog": "\n".join(stmts), "start": w0, "end": w1,
                                         "off": rng.choice([0, 120, -300])}))
         return out
 
     def impl(self, case):
+        out = self._impl(case)
+        if out.get("twin"):
+            t_store = storelib.Store(case["backend"])
+            try:
+                for b in ("b0", "b1"):
+                    t_store.ds.create_bucket(b, "t", "c", "h", created=us_to_dt(T0), data={"k": [1]})
+                    t_store.ds[b].insert([mk_event(e) for e in case["events"][b]])
+                t_store.ds["b0"].replace_last(mk_event([None, max(e[1] for e in case["events"]["b0"]) + 7 * SEC, 1000, DATAS[0]]))
+                out["twin"][1] = storelib.dump(t_store)
+            finally:
+                t_store.close()
+        return out
+
+    def _impl(self, case):
         from aw_query import query2
 
         store = storelib.Store(case["backend"])
@@ -135,6 +159,13 @@ class C12(Prop):
             except Exception as e:
                 res = ["err", err_kind(e)]
             after = storelib.dump(store)
+            # what the store does NEXT must not depend on the reads and queries it has served: rewrite the newest event
+            # here and on a twin store that was filled the same way and never read
+            twin = None
+            if case["events"]["b0"]:
+                marker = mk_event([None, max(e[1] for e in case["events"]["b0"]) + 7 * SEC, 1000, DATAS[0]])
+                ds["b0"].replace_last(marker)
+                twin = [storelib.dump(store), None]  # the twin runs when this store is closed (peewee: one database per process)
             # the same query text and window again after the bucket has changed: it must show the bucket as it is now
             rerun = None
             if case["events"]["b0"]:
@@ -145,7 +176,7 @@ class C12(Prop):
                 rerun = {"qb": {"get": [ev_tuple(e) for e in r2], "count": c2},
                          "direct": {"get": [ev_tuple(e) for e in ds["b0"].get(-1, sd, ed)], "count": ds["b0"].get_eventcount(sd, ed)}}
             return {"before": before, "mid": mid, "after": after, "direct": direct, "qb": qb, "res": res, "second_read": ret,
-                    "rerun": rerun}
+                    "rerun": rerun, "twin": twin}
         finally:
             store.close()
 
@@ -190,6 +221,10 @@ class C12(Prop):
             return None
         if out["mid"] != out["before"]:
             return "a direct windowed read changed the store"
+        if out.get("twin") and out["twin"][0] != out["twin"][1]:
+            return ("after the reads and queries a replace_last rewrote a different event than on a store filled the same way and "
+                    f"never read: {json.dumps(out['twin'][0]['b0']['events'], ensure_ascii=False)[:300]} vs "
+                    f"{json.dumps(out['twin'][1]['b0']['events'], ensure_ascii=False)[:300]}")
         if out["after"] != out["before"]:
             for b in out["before"]:
                 if out["after"].get(b) != out["before"][b]:
